@@ -150,8 +150,8 @@ template <typename K>
 struct ShapeDom : CellSpace<ShapeDom<K> > {
   typedef typename K::S Obj;
   typedef Obj S;
-  std::string name; int dim; bool nnc; int menu_limit; bool integer_only;
-  ShapeDom(const std::string& tname, int dim_, int ml, bool integer_only_) : name(K::name(tname)), dim(dim_), nnc(K::level == 0), menu_limit(ml), integer_only(integer_only_) {}
+  std::string name; int dim; bool nnc; int menu_limit; bool integer_only; bool dyadic_only;
+  ShapeDom(const std::string& tname, int dim_, int ml, bool integer_only_) : name(K::name(tname)), dim(dim_), nnc(K::level == 0), menu_limit(ml), integer_only(integer_only_), dyadic_only(tname == "double") {}
 
   S* clone(const S& s) const { return K::clone(s); }
   std::string dump(const S& s) const { return dump_of(s); }
@@ -178,6 +178,7 @@ struct ShapeDom : CellSpace<ShapeDom<K> > {
       int shape = sp[i].needs & 3; bool strict = sp[i].needs & 4;
       if (shape > K::level) continue;
       if (strict && K::level != 0) continue;
+      if (dyadic_only) { bool bad = false; for (size_t k = 0; k < sp[i].cs.size(); ++k) for (size_t j = 0; j < sp[i].cs[k].e.a.size(); ++j) { long a = std::labs(sp[i].cs[k].e.a[j]); if (a > 2) bad = true; } if (bad) continue; }
       if (integer_only) { bool frac = false; for (size_t k = 0; k < sp[i].cs.size(); ++k) for (size_t j = 0; j < sp[i].cs[k].e.a.size(); ++j) if (std::labs(sp[i].cs[k].e.a[j]) > 1) frac = true; if (frac) continue; }
       if ((int)out.size() >= menu_limit) break;
       MenuItemT<S, Cell> m; m.name = sp[i].name;
